@@ -962,3 +962,107 @@ def r18_reflection_mirrors_the_old_bounds(ck, P, rid='C13-R18'):
                 ck.ok(R, where, 'of an old bound')
     if n == 0:
         raise AnalysisBroken('%s: no reflection found in the gradient walker' % rid)
+
+
+def r19_stop_search_starts_at_the_first_stop(ck, P, rid='C13-R19'):
+    """T-COUNT: gradient_walker_reset looks for the stop segment of the *wrapped* position; the wrapped position jumps back at every period
+    of REPEAT_NORMAL and runs backwards in the odd periods of REPEAT_REFLECT, so the linear search starts at the first stop every time."""
+    R = ck.rule(rid, 'in the gradient walker the loop that searches the stop array (it compares the wrapped position with stops[n].x) starts its index at the constant 0 on every entry: an index remembered from the previous reset is ahead of the right segment after a wrap of the period, and the colour is extrapolated from the wrong pair of stops', floor=1)
+    u = P.units.get('pixman-gradient-walker.c')
+    if u is None:
+        raise AnalysisBroken('%s: pixman-gradient-walker.c not compiled' % rid)
+    n = 0
+    for fn, f in sorted(u.functions.items()):
+        for ph in f.insts():
+            if ph.op != 'phi' or ph.ty != 'i32':
+                continue
+            steps = [f.v(a) for a in ph.a if a[0] == 'v']
+            if not any(y is not None and y.op == 'add' and any(list(a) == ['v', ph.i] for a in y.a) and any(a[0] == 'c' and int(a[1]) == 1 for a in y.a) for y in steps):
+                continue
+            # the index is used to address pixman_gradient_stop_t.x
+            used = False
+            for q in f.insts():
+                if q.op == 'getelementptr' and any(st[0] in ('p', 'x') and list(st[1]) == ['v', ph.i] for st in q.d.get('path', [])) :
+                    used = True
+                if q.op in ('sext', 'zext') and list(q.a[0]) == ['v', ph.i]:
+                    for g_ in f.users(q):
+                        if g_.op == 'getelementptr':
+                            used = True
+            if not used:
+                continue
+            n += 1; ck.saw(f)
+            inits = [a for a, y in zip(ph.a, [f.v(a) if a[0] == 'v' else None for a in ph.a]) if not (y is not None and y.op == 'add' and any(list(b) == ['v', ph.i] for b in y.a))]
+            where = '%s: stop search at %s' % (fn, ph.loc())
+            if all(a[0] == 'c' and int(a[1]) == 0 for a in inits):
+                ck.ok(R, where, 'from stop 0')
+            else:
+                ck.violation(R, fn, 'stop search resumes from a remembered index', '%s starts its search through the stops (%s) from a value other than 0: the position compared with the stops is the wrapped one, which is smaller than last time after every period of a repeating gradient, so the segment that holds it lies before the remembered index and is never looked at' % (fn, ph.loc()), ph.loc())
+    if n == 0:
+        raise AnalysisBroken('%s: no stop search loop found in the gradient walker' % rid)
+
+
+def r20_horizontal_verdict_depends_on_the_y_column(ck, P, rid='C13-R20'):
+    """T-DEP: a linear gradient may be painted as one scanline repeated for every row only if the gradient parameter does not change with
+    the destination y.  How y enters the parameter is the second column of the transform, m[0][1] and m[1][1] (and m[2][1]): every way
+    of answering 'horizontal' has looked at both."""
+    R = ck.rule(rid, 'in linear_gradient_is_horizontal every edge that makes the function answer TRUE is guarded by comparisons whose operands, taken together, depend on matrix[0][1] and on matrix[1][1] of the image\'s transform (or on the absence of a transform): a shortcut that looks at matrix[1][0] instead takes a pure x shear for horizontal and repeats row 0 for every row', floor=1)
+    fs = [f for f in P.functions() if f.name == 'linear_gradient_is_horizontal']
+    if not fs:
+        raise AnalysisBroken('%s: linear_gradient_is_horizontal not found' % rid)
+    n = 0
+    for f in fs:
+        rets = f.rets()
+        if len(rets) != 1 or not rets[0].a or rets[0].a[0][0] != 'v':
+            raise AnalysisBroken('%s: unexpected return shape' % rid)
+        rv = f.v(rets[0].a[0])
+        if rv is None or rv.op != 'phi':
+            continue
+        for a, bb in zip(rv.a, rv.d['bb']):
+            if not (a[0] == 'c' and int(a[1]) != 0):
+                continue
+            n += 1; ck.saw(f)
+            idx = set(); no_transform = False
+            edges = set(f.guard_edges(bb))
+            t_ = f.blocks[bb].term
+            if t_.op == 'br' and t_.a and len(set(t_.d['succ'])) == 2:
+                edges.add((t_, rv.bb.id))
+            for t, s in edges:
+                if not t.a:
+                    continue
+                for at in f.atoms(t.a[0]):
+                    pass
+                work = [t.a[0]]; seen = set()
+                while work:
+                    o = work.pop()
+                    y = f.v(o) if o and o[0] == 'v' else None
+                    if y is None or y.i in seen:
+                        continue
+                    seen.add(y.i)
+                    if y.op == 'load':
+                        pa = f.path(y.a[0])
+                        lf = f.last_field(pa) or ''
+                        if 'pixman_transform.matrix' in pa[1]:
+                            steps = [st for st in pa[1] if isinstance(st, str) and st.startswith('[') and st.endswith(']')]
+                            ij = tuple(int(st[1:-1]) for st in steps[-2:]) if len(steps) >= 2 and all(st[1:-1].isdigit() for st in steps[-2:]) else None
+                            if ij:
+                                idx.add(ij)
+                            else:
+                                idx.add(str(pa[1][-3:]))
+                        if lf == 'image_common.transform':
+                            cc, p, ops = f.cond(t.a[0])
+                            if cc is not None and cc.op == 'icmp' and any(q[0] == 'n' for q in (ops or [])):
+                                no_transform = True
+                        continue
+                    if y.op == 'call':
+                        continue
+                    work.extend(q for q in y.a if q)
+            where = '%s: TRUE from block %d' % (f.name, bb)
+            # the general test: a floating-point comparison of the per-image increment (it is computed from the transformed unit y vector)
+            general = any(t.a and f.v(t.a[0]) is not None and (f.v(t.a[0]).op == 'fcmp' or any(f.v(o) is not None and f.v(o).op == 'fcmp' for o in (f.cond(t.a[0])[2] or []) if o[0] == 'v') or f.cond(t.a[0])[0] is not None and f.cond(t.a[0])[0].op == 'fcmp') for t, s in edges)
+            ok = general or no_transform or ({(0, 1), (1, 1)} <= {i for i in idx if isinstance(i, tuple)})
+            if ok:
+                ck.ok(R, where)
+            else:
+                ck.violation(R, f.name, 'horizontal verdict without the y column', '%s answers TRUE on an edge whose guards do not look at both matrix[0][1] and matrix[1][1] (they look at %s): whether the parameter changes from row to row is decided by how the destination y enters the transform, and a transform with matrix[0][1] != 0 (an x shear) gets one scanline repeated for every row' % (f.name, sorted(map(str, idx)) or 'no matrix element'), f.blocks[bb].term.loc())
+    if n == 0:
+        raise AnalysisBroken('%s: no TRUE edge found in linear_gradient_is_horizontal' % rid)
